@@ -47,7 +47,8 @@ class IndexReplacer(MultiFunction):
                 fi.append((j.count(), d))
 
         fi = unique_sorted_indices(sorted(fi))
-        free_indices, index_dimensions = zip(*fi)
+        # All free indices may have been replaced by fixed indices
+        free_indices, index_dimensions = zip(*fi) if fi else ((), ())
 
         return Zero(
             shape=o.ufl_shape,
